@@ -126,17 +126,37 @@ def run_edge(case, model):
             return [(envelope, 'id%d' % len(got))]
     counters = {'data': 0}
 
+    verdicts = []       # one entry per validator call, in order: the code the validator put into the reply, or None
+
     class V(SmtpValidators):
+        # every callback SmtpSession shows the validators is counted (Model/Server.lean's verdict index): banner, ehlo, mail, rcpt,
+        # data, have_data — RSET, NOOP and QUIT are never shown to them
+        def handle_banner(self, reply, address):
+            verdicts.append(None)
+
+        def handle_ehlo(self, reply, ehlo_as):
+            verdicts.append(None)
+
+        def handle_mail(self, reply, sender, params):
+            verdicts.append(None)
+
+        def handle_data(self, reply):
+            verdicts.append(None)
+
         def handle_rcpt(self, reply, recipient, params):
+            verdicts.append(None)
             if recipient == case['reject_rcpt']:
                 reply.code = '550'
                 reply.message = '5.1.1 no such user'
+                verdicts[-1] = 550
 
         def handle_have_data(self, reply, data):
+            verdicts.append(None)
             counters['data'] += 1
             if counters['data'] == case['reject_data_at']:
                 reply.code = case['reject_data_code']
                 reply.message = '%s.6.0 content refused' % case['reject_data_code'][0]
+                verdicts[-1] = int(case['reject_data_code'])
     lines = []
     for c in case['script']:
         if c[0] == 'EHLO':
@@ -151,10 +171,23 @@ def run_edge(case, model):
             lines.append(c[0].encode() + b'\r\n')
     sock = ScriptSocket([b''.join(lines)], eof=True)
     edge = SmtpEdge(None, Q(), max_size=case['maxsize'], validator_class=V, hostname='edge.example')
+    import slimta.edge.smtp as esmtp
+    edge_session_envelope = {}
+    RealSession = esmtp.SmtpSession
+
+    class TappedSession(RealSession):
+        def __init__(self, *a, **kw):
+            RealSession.__init__(self, *a, **kw)
+            edge_session_envelope['session'] = self
+    esmtp.SmtpSession = TappedSession
     try:
         edge.handle(sock, ('127.0.0.1', 40000))
     except WouldBlock:
         pass
+    finally:
+        esmtp.SmtpSession = RealSession
+    if 'session' in edge_session_envelope:
+        edge_session_envelope['env'] = edge_session_envelope['session'].envelope
     # replies, in order
     codes = []
     for l in b''.join(sock.sent).split(b'\r\n'):
@@ -194,10 +227,27 @@ def run_edge(case, model):
     if not hits and got != exp:
         hits.append(hit('c07.edge.queue-received-other-envelope', 'the queue was handed a sender / recipients other than those accepted since the last '
                         'reset (or a message that was not answered 250, or none for one that was)', observed=got[:4], expected=exp[:4]))
+    # the same byte stream through Model/Server.lean in session mode (the handler object is SmtpSession: RSET / NOOP / QUIT consume no
+    # verdict), with the verdicts the validators really gave, in the order they were asked: same replies, same final state of
+    # SmtpSession's envelope (the theorems of Proofs/C07.lean about that envelope are about this configuration)
+    mismatch = None
+    wire = b''.join(lines)
+    line = 'server run 0 0 %s 0::S %s - - - %s none' % ('-' if case['maxsize'] is None else case['maxsize'],
+                                                       ','.join('-' if v is None else str(v) for v in verdicts) or '-', wire.hex())
+    m = model.ask(line)
+    mcodes = [w[1:] for w in m.split(' | ')[0].split(' ') if w.startswith('r')]
+    if mcodes != codes:
+        mismatch = {'op': 'server run (session mode)', 'what': 'reply codes of a real SmtpEdge session', 'impl': ' '.join(codes), 'model': ' '.join(mcodes), 'case': line[:400]}
+    else:
+        env = edge_session_envelope.get('env')
+        ienv = '-' if env is None else (env.sender.encode('utf-8').hex() or '-') + '>' + (','.join(r.encode('utf-8').hex() for r in env.recipients) or '-')
+        menv = [w[4:] for w in m.split(' | ')[-1].split(' ') if w.startswith('env=')]
+        if 'env' in edge_session_envelope and menv and menv[0] != ienv:
+            mismatch = {'op': 'server run (session mode)', 'what': "SmtpSession's envelope at the end of the session", 'impl': ienv, 'model': menv[0], 'case': line[:400]}
     tags = ['edge-session', 'edge-messages=%d' % len(exp)]
     if any(x in codes for x in ('552', '550', '450')):
         tags.append('edge-content-or-rcpt-refused')
-    return CaseResult(None, hits, ('edge', repr(case['script']), case['maxsize'], case['reject_data_at'], case['reject_data_code'], case['reject_rcpt']), tags)
+    return CaseResult(mismatch, hits, ('edge', repr(case['script']), case['maxsize'], case['reject_data_at'], case['reject_data_code'], case['reject_rcpt']), tags)
 
 
 def monitor_order(events, commands_seen):
